@@ -2,6 +2,7 @@
 
 mod case;
 mod cost;
+mod fault;
 mod gen;
 mod interp;
 mod model;
@@ -43,6 +44,7 @@ fn main() {
             let rep = match prop {
                 1 | 2 | 3 | 4 | 6 | 7 | 8 | 9 | 11 | 12 | 13 | 15 | 16 | 17 => run_history_property(&a),
                 5 => cost::run_c05(&a),
+                10 => fault::run_c10(&a),
                 14 => special::run_c14(&a),
                 18 => special::run_c18(&a),
                 _ => {
@@ -63,7 +65,7 @@ fn main() {
             let text = std::fs::read_to_string(&file).expect("read replay file");
             let strict = args.iter().any(|a| a == "--strict");
             let known = if strict { vec![] } else { load_known(&known_path, &format!("C{:02}", prop)) };
-            let res = if prop == 5 { cost::replay_c05(&text) } else if matches!(prop, 14 | 18) { special::replay_special(prop, &text) } else { replay_history(prop, &text, &known) };
+            let res = if prop == 5 { cost::replay_c05(&text) } else if prop == 10 { fault::replay_c10(&text) } else if matches!(prop, 14 | 18) { special::replay_special(prop, &text) } else { replay_history(prop, &text, &known) };
             match res {
                 Ok(None) => {
                     println!("PASS");
